@@ -1,12 +1,179 @@
 import Driver.Util
-open Drv
+import Faithful.Lib.TruncReaders
+import Faithful.Lib.Hash
+open Drv RA
+open TR hiding Bytes
 
+/-!
+Model side of the C13 line protocol.  For every `cut <kind> <n> <key…>` the `Prog` reader of that file kind is run
+on the first `n` bytes of the file given by the preceding `file <kind> <hex>` line (`RA.runA`, proved equal to
+`RA.run` on `file.take n`), and the outcome is classified against the run on the complete file:
+`same | err | NOTFOUND | EMPTY | DIFFERENT` — the classes the harness computes for the real readers.
+-/
 namespace DrvC13
 
-/-- model side of the C13 line protocol: one answer line per op line -/
+structure St where
+  files : List (String × Array UInt8) := []
+  full : List (String × String) := []
+  ztab : List (Bytes × Bytes) := []
+
+def St.file (st : St) (kind : String) : Option (Array UInt8) := (st.files.find? (·.1 == kind)).map (·.2)
+
+def St.setFile (st : St) (kind : String) (a : Array UInt8) : St :=
+  { st with files := (kind, a) :: st.files.filter (·.1 != kind), full := st.full.filter (fun e => !(e.1.startsWith (kind ++ " "))) }
+
+def St.zstd (st : St) : Gsfa.Zstd := ⟨fun _ => [], fun b => (st.ztab.find? (·.1 == b)).map (·.2)⟩
+
+def pmap {α β : Type} (p : Prog α) (g : α → β) : Prog β := p.bind fun a => .pure (g a)
+
+def xxh (b : Bytes) : String := hexNat (H.xxhash64 b).toNat 16
+
+/-- the harness's canonical rendering of a list of linked-log entries -/
+def entriesStr (l : List Gsfa.Entry) : String :=
+  let s := String.join (l.map fun e => s!"{e.off.toNat}:{e.size.toNat}:{e.slot.toNat}:{e.flags.toNat},")
+  s!"n={l.length} h={xxh s.toUTF8.toList}"
+
+def lookStr (render : Bytes → Option String) : CI.Look → Prog String
+  | .found v => match render v with | some s => .pure ("found " ++ s) | none => .fail "bad value"
+  | .notFound => .pure "notfound"
+  | .hang => .fail "hang"
+  | .err => .fail "err"
+
+def oasStr (v : Bytes) : Option String :=
+  if v.length ≠ 9 then none else some s!"{B.unle (v.take 6)} {B.unle (v.drop 6)}"
+
+def cidStr (v : Bytes) : Option String := some (hex v)
+
+def limitAll : Nat := 2 ^ 30
+
+/-- the program (over the file of `kind`) that answers `key`, rendered as the harness renders the real answer -/
+def progFor (st : St) (kind : String) (key : List String) : Option (Prog String) :=
+  match kind, key with
+  | "cid2oas", [k] => some ((ciGetP false (kindChk Generated.kindCidToOffsetAndSize) CI.HF.real (unhex k)).bind (lookStr oasStr))
+  | "slot2cid", [k] => some ((ciGetP true (kindChk Generated.kindSlotToCid) CI.HF.real (unhex k)).bind (lookStr cidStr))
+  | "sig2cid", [k] => some ((ciGetP true (kindChk Generated.kindSigToCid) CI.HF.real (unhex k)).bind (lookStr cidStr))
+  | "pubkey2oas", [k] => some ((ciGetP false (kindChk Generated.kindPubkeyToOffsetAndSize) CI.HF.real (unhex k)).bind (lookStr oasStr))
+  | "sigexists", [k] =>
+    let sig := unhex k
+    some (pmap (bkHasP (fun _ => none) (BK.prefixOf sig) (H.xxhash64 sig).toNat) fun b => if b then "found" else "notfound")
+  | "blocktime", [k] => some (pmap (btGetP k.toNat!) fun v => s!"found {v}")
+  | "linkedlog", [o, s] =>
+    some (pmap (llReadP st.zstd o.toNat! s.toNat!) fun r => s!"found {entriesStr r.1} next={r.2.off}+{r.2.size}")
+  | "gsfa-idx", [k] =>
+    match st.file "gsfa-log" with
+    | none => none
+    | some log =>
+      some ((ciGetP false (kindChk Generated.kindPubkeyToOffsetAndSize) CI.HF.real (unhex k)).bind fun look =>
+        match look with
+        | .found v =>
+          if v.length ≠ 9 then .fail "invalid byte slice length" else
+          match runA (llWalkP st.zstd (log.size + 1) (Gsfa.ptrOfBytes v) limitAll []) log log.size with
+          | .ok l => .pure ("found " ++ entriesStr l)
+          | .err e => .fail e
+        | .notFound => .pure "notfound"
+        | .hang => .fail "hang"
+        | .err => .fail "err")
+  | "gsfa-log", [k] =>
+    match st.file "gsfa-idx", st.file "gsfa-log" with
+    | some idx, some log =>
+      match runA (ciGetP false (kindChk Generated.kindPubkeyToOffsetAndSize) CI.HF.real (unhex k)) idx idx.size with
+      | .ok (.found v) =>
+        if v.length ≠ 9 then some (.fail "invalid byte slice length") else
+        some (pmap (llWalkP st.zstd (log.size + 1) (Gsfa.ptrOfBytes v) limitAll []) fun l => "found " ++ entriesStr l)
+      | .ok .notFound => some (.pure "notfound")
+      | _ => some (.fail "index error")
+    | _, _ => none
+  | "car", [k] =>
+    match st.file "car-idx" with
+    | none => none
+    | some idx =>
+      match runA (ciGetP false (kindChk Generated.kindCidToOffsetAndSize) CI.HF.real (unhex k)) idx idx.size with
+      | .ok (.found v) =>
+        if v.length ≠ 9 then some (.fail "invalid byte slice length") else
+        some (pmap (carGetP (fun _ => true) (B.unle (v.take 6)) (B.unle (v.drop 6)) (unhex k)) fun d => s!"found {d.length} {xxh d}")
+      | .ok .notFound => some ((carOpenP (fun _ => true)).bind fun _ => .pure "notfound")
+      | _ => some (.fail "index error")
+  | _, _ => none
+
+/-- the answer on the first `n` bytes -/
+def answer (st : St) (kind : String) (key : List String) (n : Nat) : Option String :=
+  match st.file kind with
+  | none => none
+  | some f =>
+    if kind = "manifest" then
+      match key with
+      | [e, r] =>
+        match manifestLoad e.toNat! (unhex r) (f.toList.take n) with
+        | .ok v => some s!"found {v.1} {hex v.2}"
+        | .err _ => some "err"
+      | _ => none
+    else if kind = "gsfa-man" then
+      -- only the manifest of the directory is cut: NewGsfaReader fails, or Get answers from the complete index and log
+      match manifestOpen (f.toList.take n), st.file "gsfa-idx" with
+      | .err _, _ => some "err"
+      | .ok _, some idx =>
+        match progFor st "gsfa-idx" key with
+        | none => none
+        | some p => match runA p idx idx.size with
+          | .ok s => some s
+          | .err _ => some "err"
+      | .ok _, none => none
+    else
+      match progFor st kind key with
+      | none => none
+      | some p =>
+        match runA p f n with
+        | .ok s => some s
+        | .err _ => some "err"
+
+def classOf (full got : String) : String :=
+  if got = full then "same"
+  else if got = "err" then "err"
+  else if got = "notfound" then "NOTFOUND"
+  else if got.startsWith "found n=0 " && !full.startsWith "found n=0 " then "EMPTY"
+  else "DIFFERENT"
+
+def step (st : St) (l : String) : St × String :=
+  match words l with
+  | "case" :: _ => ({}, "ok")
+  | ["zstd", c, r] => ({ st with ztab := (unhex c, unhex r) :: st.ztab }, "ok")
+  | ["file", kind, h] =>
+    let a := (unhex h).toArray
+    (st.setFile kind a, s!"file {kind} {a.size}")
+  | op :: kind :: key =>
+    if op = "get" ∨ op = "getrec" then
+      match st.file kind with
+      | none => (st, "nofile")
+      | some f =>
+        match answer st kind key f.size with
+        | none => (st, "bad-op")
+        | some a => ({ st with full := (kind ++ " " ++ " ".intercalate key, a) :: st.full }, a)
+    else if op = "cut" ∨ op = "cutload" then
+      match key with
+      | ns :: key =>
+        match st.file kind with
+        | none => (st, "nofile")
+        | some f =>
+          match ns.toNat? with
+          | none => (st, "bad-cut")
+          | some n =>
+            if n > f.size then (st, "bad-cut") else
+            match st.full.find? (·.1 == kind ++ " " ++ " ".intercalate key) with
+            | none => (st, "no-full-answer")
+            | some (_, full) =>
+              match answer st kind key n with
+              | none => (st, "bad-op")
+              | some a => (st, classOf full a)
+      | [] => (st, "bad-op")
+    else (st, "bad-op")
+  | _ => (st, "bad-op")
+
 def run (lines : Array String) : IO Unit := do
   let out ← IO.getStdout
-  for _ in lines do
-    out.putStrLn "unimplemented"
+  let mut st : St := {}
+  for l in lines do
+    let (st', o) := step st l
+    st := st'
+    out.putStrLn o
 
 end DrvC13
